@@ -31,7 +31,22 @@ def prepare_shims(ctx):
     ctx.build_harness(tags="vshim")
 
 
-PREPARE = {"C08": prepare_vtime, "C18": prepare_vtime, "C20": prepare_shims, "C17": prepare_shims, "C02": prepare_shims, "C01": prepare_shims}
+PROBED = ["heap", "bstree", "trie", "queue", "stack", "cache", "list"]
+
+
+def prepare_probes(ctx):
+    """as prepare_shims, plus access probes in the packages of the lock-guarded containers"""
+    ctx.setup(need_harness=False)
+    sf = os.path.join(os.path.expanduser("~"), "go/pkg/mod/golang.org/x/sync@v0.1.0/singleflight/singleflight.go")
+    if not os.path.exists(sf):
+        raise Infra("cached source of golang.org/x/sync/singleflight not found")
+    info = ctx.apply_shims(only="sync,time,golang.org/x/sync/singleflight", singleflight=sf, probes=PROBED)
+    if info.get("probe_sites", 0) < 50:
+        raise Infra("only %s access probes were inserted" % info.get("probe_sites"))
+    ctx.build_harness(tags="vshim")
+
+
+PREPARE = {"C08": prepare_vtime, "C18": prepare_vtime, "C20": prepare_shims, "C17": prepare_shims, "C02": prepare_probes, "C01": prepare_probes}
 
 
 def seq_container(ctx, driver, trace_module, model_checks, depth, shards=8, extra_args=(), kf_controls=(),
@@ -237,8 +252,8 @@ def all_open_kf_ids():
 
 @handler("C02")
 def c02(ctx):
-    ctx.prepare = prepare_shims
-    prepare_shims(ctx)
+    ctx.prepare = prepare_probes
+    prepare_probes(ctx)
     # sequential findings that stay open (pinned by tests) are part of the sequential meaning here
     seq_open = [k for k in all_open_kf_ids() if k["property"] in ("C03", "C04", "C05", "C06", "C08", "C09")]
     opn, _ = vlib.known_findings(ctx.prop)
@@ -255,5 +270,73 @@ def c02(ctx):
     ctx.notes["driver"] = dict(name="conc", nodes=summ["nodes"], distinct_histories=summ["leaves"], extra=summ["extra"])
     nviol = vlib.check_recordings(ctx, "conc", "LinTrace", summ["files"], seq_open + opn, variant_of=lambda f: "tree",
                                   reproducer=vlib.sched_reproducer("conc"))
+    vlib.write_evidence(ctx, exhaustive=False)
+    return nviol
+
+
+@handler("C17")
+def c17(ctx):
+    ctx.prepare = prepare_shims
+    prepare_shims(ctx)
+    opn, _ = vlib.known_findings(ctx.prop)
+    ctx.model_check("MemoizeMC", "MemoizeMC.cfg", workers=12, xmx="10g")
+    ctx.model_check("MemoizeMC", "MemoizeMC_kf.cfg", expect_violation="OneInFlight")
+    out = os.path.join(ctx.scratch, "t", "memoize")
+    summ = ctx.drive_procs("memoize", ["-out", out], 12)
+    if summ["nodes"] < 10:
+        raise Infra("driver memoize recorded only %d nodes" % summ["nodes"])
+    ctx.notes["driver"] = dict(name="memoize", nodes=summ["nodes"], distinct_histories=summ["leaves"], extra=summ["extra"])
+    nviol = vlib.check_recordings(ctx, "memoize", "MemoizeTrace", summ["files"], opn, variant_of=lambda f: "tree",
+                                  reproducer=vlib.sched_reproducer("memoize"))
+    vlib.write_evidence(ctx, exhaustive=False)
+    return nviol
+
+
+def site_table(ctx):
+    try:
+        return {x["id"]: x for x in vlib.json.load(open(os.path.join(ctx.scratch, "gogu", "zzshim", "sites.json")))}
+    except Exception:
+        return {}
+
+
+@handler("C01")
+def c01(ctx):
+    ctx.prepare = prepare_probes
+    prepare_probes(ctx)
+    opn, _ = vlib.known_findings(ctx.prop)
+    ctx.model_check("LockModel", "LockModel.cfg", workers=12, xmx="10g")
+    ctx.model_check("LockModel", "LockModel_neg.cfg", expect_violation="Complete")
+    out = os.path.join(ctx.scratch, "t", "race")
+    summ = ctx.drive_procs("race", ["-out", out], 12)
+    if summ["nodes"] < 10:
+        raise Infra("driver race recorded only %d nodes" % summ["nodes"])
+    ctx.notes["driver"] = dict(name="race", nodes=summ["nodes"], executions=summ["leaves"], extra=summ["extra"])
+    disc = [f for f in summ["files"] if ".disc." in f]
+    safe = [f for f in summ["files"] if ".safe." in f]
+    sites = site_table(ctx)
+
+    def disc_rep(ctx, f, nodes, target, module, cfg):
+        leaf = nodes[vlib.leaf_below(nodes, target) - 1]
+        x = leaf["op"].get("x")
+        if not x:
+            raise Infra("no schedule recorded below line %d of %s" % (target, f))
+        for attempt in range(3):
+            o = os.path.join(ctx.scratch, "t", "confirm-disc-%d-%d.ndjson" % (target, attempt))
+            now = ctx.replay_raw("race", x, o, variant="disc")
+            rr = ctx.tlc(module, cfg=cfg, env={"TRACE": o}, workers=1, xmx="1g")
+            if rr["rc"] == 12 and rr["mismatches"]:
+                n2 = vlib.load_trace(o)
+                bad = n2[min(rr["mismatches"]) - 1]["op"]
+                what = dict(event=bad)
+                if bad["n"] == "acc" and len(bad["a"]) > 3:
+                    what["site"] = sites.get(bad["a"][3], {})
+                return dict(kind="sched", driver="race", var="disc", module=module, sched=x), what
+            if rr["rc"] != 0 or rr["errors"]:
+                raise Infra("re-validation failed: " + rr["out"][-1500:])
+        return None
+
+    nviol = vlib.check_recordings(ctx, "race", "DiscTrace", disc, opn, variant_of=lambda f: "tree", reproducer=disc_rep)
+    nviol += vlib.check_recordings(ctx, "race", "SafeTrace", safe, opn, variant_of=lambda f: "tree",
+                                   reproducer=vlib.sched_reproducer("race"))
     vlib.write_evidence(ctx, exhaustive=False)
     return nviol
